@@ -1,3 +1,4 @@
+import GoRedisModel.Proofs.SourceFacts
 import GoRedisModel.Proofs.Glob
 import GoRedisModel.Model.Exec
 /-! # C17 — key patterns match as Redis globs
@@ -53,5 +54,11 @@ recursive matcher backtracks exponentially) is the matcher the theorems are abou
 theorem C17_fast_matcher (p k : Bytes) : globMatchFast p k = globMatch p k := globMatchFast_eq p k
 
 example : globMatchFast b!"*a*a*a*b" b!"aaaaaaaaaaaaaaaa" = false ∧ globMatchFast b!"*a*a*a*a" b!"aaaaaaaaaaaaaaaa" = true := by decide
+
+/-- **The source is the one the model was written from** (regenerated on every run): `regexpFromGlob` and `Compile` of the current source
+have the fingerprints recorded in the model; a change to any of them means the theorems above are not shown for the code
+as it is now, until the model has been compared with it again -/
+theorem C17_source_glob_is_the_modelled_one :
+    globModelled.all (fun e => Generated.serverFingerprints.contains (e.1, e.2.1)) = true := source_glob_is_the_modelled_one
 
 end GoRedis
